@@ -13,7 +13,60 @@ use refmodel::penalty::{penalty, Penalty};
 use refmodel::tables::*;
 use serde_json::{json, Value};
 
+/// Builds executed on the same thread immediately before the build under test (a history): hidden state left
+/// behind by an earlier build of the same version (a reused working matrix, a cached template) must not change
+/// which mask is selected. `pre`: 0 none, 1 sibling, 2 sibling twice, 3 sibling with forced mask 7 then sibling,
+/// 4 a larger version then sibling. A sibling has the same version, level and mode and a different payload.
+fn run_prelude(bc: &BuildCase, pre: u8) {
+    if pre == 0 {
+        return;
+    }
+    let mode = bc.effective_mode();
+    let level = bc.effective_level();
+    let Some(version) = bc.opts.version.or_else(|| min_version(level, mode, bc.input.len())) else { return };
+    let payload: Vec<u8> = bc
+        .input
+        .iter()
+        .map(|&b| match mode {
+            Mode::Numeric => b'0' + (b.wrapping_sub(b'0') + 3) % 10,
+            Mode::Alphanumeric => ALNUM_SET[(alnum_value(b).unwrap_or(0) as usize + 7) % 45],
+            Mode::Byte => b ^ 0x5A,
+        })
+        .collect();
+    let sib = |mask: Option<u8>, v: usize| BuildCase::new(payload.clone(), crate::fq::Opts { mode: Some(mode), level: Some(level), version: Some(v), mask });
+    let run = |c: BuildCase| {
+        let _ = catch(|| c.builder().build().map(|q| q.size));
+    };
+    match pre {
+        1 => run(sib(None, version)),
+        2 => {
+            run(sib(None, version));
+            run(sib(None, version));
+        }
+        3 => {
+            run(sib(Some(7), version));
+            run(sib(None, version));
+        }
+        _ => {
+            run(sib(None, (version + 3).min(40)));
+            run(sib(None, version));
+        }
+    }
+}
+
+pub fn case_json(bc: &BuildCase, pre: u8) -> Value {
+    let mut j = bc.to_json();
+    j["prelude"] = json!(pre);
+    j
+}
+
 pub fn check(bc: &BuildCase, fam: &str, obs: &mut Obs) -> Result<(), Fail> {
+    check_pre(bc, (bc.hash() % 5) as u8, fam, obs)
+}
+
+pub fn check_pre(bc: &BuildCase, pre: u8, fam: &str, obs: &mut Obs) -> Result<(), Fail> {
+    run_prelude(bc, pre);
+    obs.label(&format!("prelude:{}", pre));
     let b = bc.builder();
     let r = catch(|| {
         verif_hooks::arm();
@@ -87,23 +140,56 @@ pub fn check(bc: &BuildCase, fam: &str, obs: &mut Obs) -> Result<(), Fail> {
     for k in 1..8 {
         ensure!(unmask(k) == base, "candidate_codewords", "candidate for mask {} does not carry the same placed codewords as the candidate for mask 0 ({:?})", k, bc);
     }
-    // (3) independent penalty model on those very candidates
-    let pens: Vec<Penalty> = (0..8).map(|k| penalty(&cands[k], v)).collect();
+    // (3) independent penalty model on independently derived candidates: the emitted symbol, un-masked with the
+    // emitted mask and re-masked with each of the eight ISO patterns. While candidates are compared the format
+    // information is either still blank (what this crate does: the reserved area is light) or that candidate's
+    // own format word (the ISO reading); the property does not say which, so the emitted mask must be minimal
+    // under at least one of the two. Anything else in the format area (stale bits of an earlier build) is neither.
+    let vals = built.values();
+    let mut base = vals.clone();
+    for &(r, c) in &g.order {
+        base[r * n + c] ^= mask_cond(emitted, r, c);
+    }
+    let level_bits = bc.effective_level().format_bits();
+    let derive = |k: u8, own_format: bool| -> Vec<bool> {
+        let mut m = base.clone();
+        for &(r, c) in &g.order {
+            m[r * n + c] ^= mask_cond(k, r, c);
+        }
+        let fw = refmodel::geom::format_word(level_bits, k);
+        for copy in 0..2 {
+            for i in 0..15 {
+                let (r, c) = g.format_pos[copy][i];
+                m[r * n + c] = own_format && (fw >> i) & 1 == 1;
+            }
+        }
+        m
+    };
+    let indep_a: Vec<Vec<bool>> = (0..8u8).map(|k| derive(k, false)).collect();
+    let pens: Vec<Penalty> = (0..8).map(|k| penalty(&indep_a[k], v)).collect();
     let totals: Vec<u32> = pens.iter().map(|p| p.total()).collect();
+    let totals_b: Vec<u32> = (0..8u8).map(|k| penalty(&derive(k, true), v).total()).collect();
     let min = *totals.iter().min().unwrap();
+    let min_b = *totals_b.iter().min().unwrap();
     let mut sorted = totals.clone();
     sorted.sort();
     let gap = sorted[1] - sorted[0];
-    // diagnostic only: does the ranking score equal the model?
+    // diagnostics only: do the recorded candidates / ranking scores equal the model?
     let mut mism = 0;
+    let mut cand_mism = 0;
     for c in &rec {
-        if c.score != totals[mask_no(c.mask) as usize] {
+        let k = mask_no(c.mask) as usize;
+        if c.score != totals[k] {
             mism += 1;
+        }
+        if cands[k] != indep_a[k] {
+            cand_mism += 1;
         }
     }
     obs.count("candidates_scored", 8);
     obs.count("score_model_mismatch", mism);
-    if totals[emitted as usize] != min {
+    obs.count("candidate_model_mismatch", cand_mism);
+    if totals[emitted as usize] != min && totals_b[emitted as usize] != min_b {
         let rows_only: Vec<u32> = pens.iter().map(|p| p.total_rows_only()).collect();
         let rmin = *rows_only.iter().min().unwrap();
         // signature: is the emitted mask what a scorer ignoring the column terms would pick?
@@ -112,7 +198,7 @@ pub fn check(bc: &BuildCase, fam: &str, obs: &mut Obs) -> Result<(), Fail> {
         return fail(
             sig,
             format!(
-                "v{} {}: emitted mask {} has documented penalty {} but mask {} has {}; penalties by mask {:?}; ranking scores used by the crate {:?} ({:?})",
+                "v{} {}: emitted mask {} has documented penalty {} but mask {} has {}; penalties by mask {:?} (format area blank) / {:?} (own format word); ranking scores used by the crate {:?}; prelude {} ({:?})",
                 v,
                 bc.effective_level().name(),
                 emitted,
@@ -120,6 +206,7 @@ pub fn check(bc: &BuildCase, fam: &str, obs: &mut Obs) -> Result<(), Fail> {
                 best,
                 min,
                 totals,
+                totals_b,
                 {
                     let mut s = vec![0u32; 8];
                     for c in &rec {
@@ -127,12 +214,12 @@ pub fn check(bc: &BuildCase, fam: &str, obs: &mut Obs) -> Result<(), Fail> {
                     }
                     s
                 },
+                pre,
                 bc
             ),
         );
     }
     // the emitted symbol is that candidate (plus format information)
-    let vals = built.values();
     for &(r, c) in &g.order {
         if vals[r * n + c] != cands[emitted as usize][r * n + c] {
             return fail("emitted_not_candidate", format!("emitted symbol differs from the recorded candidate of mask {} at (row {}, col {})", emitted, r, c));
@@ -168,7 +255,10 @@ pub fn check(bc: &BuildCase, fam: &str, obs: &mut Obs) -> Result<(), Fail> {
 
 pub fn replay(_e: &Engine, case: &Value, obs: &mut Obs) -> Result<(), Fail> {
     let b = BuildCase::from_json(case).ok_or_else(|| Fail { sig: "bad_replay".into(), msg: "cannot parse case".into() })?;
-    check(&b, "replay", obs)
+    match case.get("prelude").and_then(|x| x.as_u64()) {
+        Some(p) => check_pre(&b, p as u8, "replay", obs),
+        None => check(&b, "replay", obs),
+    }
 }
 
 pub fn run(e: &'static Engine) {
@@ -215,17 +305,31 @@ pub fn run(e: &'static Engine) {
         }));
     }
     e.par(jobs);
-    let total: u32 = e.tier.pick(2400, 60000);
-    let shards = e.tier.pick(16u32, 64);
+    let total: u32 = e.tier.pick(9600, 240000);
+    let shards = e.tier.pick(32u32, 96);
     let mut jobs: Vec<Job> = Vec::new();
     for _ in 0..shards {
         jobs.push(Box::new(move |jc: &mut JobCtx| {
-            let strat = (prop_oneof![3 => 0usize..72, 1 => 0usize..480], any::<bool>(), any::<bool>(), any::<bool>()).prop_flat_map(|(ci, fm, fl, fv)| {
-                case_in_cell(Cell::from_index(ci), Force { mode: fm, level: fl, version: fv }, None)
-            });
-            jc.run_prop(1 << 20, &strat, total / shards, |(c, _)| c.to_json(), |(c, fam), o| {
+            let strat = (
+                (prop_oneof![3 => 0usize..72, 1 => 0usize..480], any::<bool>(), any::<bool>(), any::<bool>())
+                    .prop_flat_map(|(ci, fm, fl, fv)| case_in_cell(Cell::from_index(ci), Force { mode: fm, level: fl, version: fv }, None)),
+                0u8..5,
+            );
+            jc.run_prop(1 << 20, &strat, total / shards / 4, |((c, _), pre)| case_json(c, *pre), |((c, fam), pre), o| {
                 o.label("part:generated");
-                check(c, fam, o)
+                check_pre(c, *pre, fam, o)
+            });
+            // small/medium versions: exact ties and gaps below 10 points are frequent; every case runs after a generated prelude
+            let strat = (crate::gens::auto_mask_small(), 0u8..5);
+            jc.run_prop(2 << 20, &strat, total / shards / 2, |((c, _, _), pre)| case_json(c, *pre), |((c, fam, _), pre), o| {
+                o.label("part:auto_mask_small");
+                check_pre(c, *pre, fam, o)
+            });
+            // steered matrices: long runs, finder look-alikes and uniform blocks at the symbol edges and next to function patterns
+            let strat = (crate::gens::steered_case(1, 12, false), 0u8..5);
+            jc.run_prop(3 << 20, &strat, total / shards / 4, |((c, _), pre)| case_json(c, *pre), |((c, fam), pre), o| {
+                o.label("part:steered");
+                check_pre(c, *pre, fam, o)
             });
         }));
     }
